@@ -1,8 +1,11 @@
 package main
 
 import (
+	"encoding/base64"
 	"encoding/binary"
+	"encoding/json"
 	"fmt"
+	"strings"
 
 	square "github.com/celestiaorg/go-square/v2"
 	v1 "github.com/celestiaorg/go-square/v2/proto/blob/v1"
@@ -189,7 +192,66 @@ func (c *Ctx) handSquare() ([][]byte, string) {
 	return sharesToBytes(all), kind
 }
 
+// jsonTotality: the JSON decoders of shares, namespaces and blobs on byte strings of every kind - payloads of
+// every size around the accepted ones (far too long included), corrupted base64, arbitrary bytes, deep nesting,
+// lists: an error or a value, never a panic
+func (c *Ctx) jsonTotality() {
+	var docs [][]byte
+	q := func(b []byte) []byte { return []byte(`"` + base64.StdEncoding.EncodeToString(b) + `"`) }
+	for _, n := range []int{0, 1, 2, 3, 19, 20, 21, 27, 28, 29, 30, 57, 58, 510, 511, 512, 513, 514, 515, 600, 1023, 1024, 1025, 4096, 70000} {
+		docs = append(docs, q(c.rng.Bytes(n)), q(make([]byte, n)))
+	}
+	for _, d := range []string{``, ` `, `null`, `true`, `0`, `-1`, `1e999`, `""`, `"`, `"=`, `"===="`, `"A"`, `[]`, `[0]`, `[256]`, `[-1]`, `[1.5]`, `{}`, `{"data":1}`, `{"data":[1,2]}`, `{"data":"AA==","share_version":-1}`,
+		`{"share_version":1e10}`, `{"namespace_id":{}}`, `{"signer":[0]}`, `{"data":null,"data":"AA=="}`, strings.Repeat("[", 20000), strings.Repeat(`{"data":`, 5000), `"\u0000"`, `"\ud800"`, "\"\xff\xfe\"", `"AA==" x`} {
+		docs = append(docs, []byte(d))
+	}
+	base := append([][]byte(nil), docs...)
+	for i := 0; i < c.n(400, 20000); i++ {
+		d := append([]byte(nil), base[c.rng.Intn(len(base))]...)
+		if len(d) > 2000 {
+			d = d[:2000]
+		}
+		for k := c.rng.Range(1, 3); k > 0 && len(d) > 0; k-- {
+			switch c.rng.Intn(4) {
+			case 0:
+				d[c.rng.Intn(len(d))] ^= 1 << uint(c.rng.Intn(8))
+			case 1:
+				d = d[:c.rng.Intn(len(d))]
+			case 2:
+				d = append(d, byte(c.rng.Intn(256)))
+			default:
+				j := c.rng.Intn(len(d))
+				d = append(d[:j], append([]byte{byte(c.rng.Intn(256))}, d[j:]...)...)
+			}
+		}
+		docs = append(docs, d)
+	}
+	for _, d := range docs {
+		d := d
+		for _, dec := range []struct {
+			name string
+			run  func() string
+		}{
+			{"Share.UnmarshalJSON", func() string { var s share.Share; return fmt.Sprint(s.UnmarshalJSON(d) == nil) }},
+			{"Namespace.UnmarshalJSON", func() string { var n share.Namespace; return fmt.Sprint(n.UnmarshalJSON(d) == nil) }},
+			{"Blob.UnmarshalJSON", func() string { var b share.Blob; return fmt.Sprint(b.UnmarshalJSON(d) == nil) }},
+			{"json.Unmarshal into []Share", func() string { var l []share.Share; return fmt.Sprint(json.Unmarshal(d, &l) == nil) }},
+			{"json.Unmarshal into []*Blob", func() string { var l []*share.Blob; return fmt.Sprint(json.Unmarshal(d, &l) == nil) }},
+			{"json.Unmarshal into []Namespace", func() string { var l []share.Namespace; return fmt.Sprint(json.Unmarshal(d, &l) == nil) }},
+		} {
+			c.oracle()
+			c.stats.Ops++
+			if safe(dec.run) == "panic" {
+				c.violate("C16", "", fmt.Sprintf("%s panicked on a %d-byte document", dec.name, len(d)), trunc(string(d), 300), []string{dec.name + " " + trunc(hx(d), 4000)})
+			}
+		}
+	}
+	c.dist("json-totality")
+	c.stats.Exhaustive = append(c.stats.Exhaustive, "JSON decoders of Share / Namespace / Blob (direct and through json.Unmarshal into lists) on base64 payloads of 25 sizes from 0 to 70000 bytes, hand-written malformed documents and their mutations")
+}
+
 func streamMalformed(c *Ctx) {
+	c.jsonTotality()
 	// the empty inputs: a nil and a zero-length share list through every decoder (incl. Deconstruct / IsEmpty)
 	c.malformedOps(nil, "nil-list")
 	c.malformedOps([][]byte{}, "empty-list")
